@@ -191,10 +191,23 @@ def drv_ddm(ph, w, a, st):
     from phonopy.harmonic.derivative_dynmat import DerivativeOfDynamicalMatrix
 
     out = {}
-    ddm = DerivativeOfDynamicalMatrix(ph.dynamical_matrix)
-    for i, q in enumerate(a["qpoints"][:4]):
-        ddm.run(np.array(q, dtype="double"), q_direction=a["nac_q_direction"], lang=st.get("lang", "C"))
-        out["ddm%d" % i] = np.array(ddm.d_dynamical_matrix)
+    # half of the runs: force constants as they come out of a calculation, i.e. WITHOUT exact index-permutation symmetry (seeded
+    # noise): the Hermitian symmetrisation inside the kernel then has something to do
+    keep = None
+    if len(a["qpoints"]) % 2 == 0:
+        keep = np.array(ph.force_constants, copy=True)
+        rng = np.random.Generator(np.random.PCG64((st["seed"] ^ 0xD1D1) & 0xFFFFFFFF))
+        ph.force_constants = keep * (1.0 + 0.02 * rng.standard_normal(keep.shape))
+    try:
+        ddm = DerivativeOfDynamicalMatrix(ph.dynamical_matrix)
+        for i, q in enumerate(a["qpoints"][:4]):
+            ddm.run(np.array(q, dtype="double"), q_direction=a["nac_q_direction"], lang=st.get("lang", "C"))
+            out["ddm%d" % i] = np.array(ddm.d_dynamical_matrix)
+            d_ = out["ddm%d" % i]
+            out["ddm%d_antihermitian_part" % i] = np.array([np.max(np.abs(m - m.conj().T)) for m in d_])
+    finally:
+        if keep is not None:
+            ph.force_constants = keep
     return out
 
 
